@@ -135,6 +135,13 @@ def extract_and_build(ctx, modules, need_driver=True):
                 # name the failing declarations
                 errs = re.findall(r"error: ([^\n]*)", out)
                 ctx.broken_obligation("build:" + m, "\n".join(errs[:20]) or out)
+        # thorough tier: the compiled property modules are replayed by leanchecker, the toolchain's
+        # independent re-checker of .olean files (a second kernel run outside the elaborator)
+        if not ctx.quick() and info["built"]:
+            rc, out = sh(["lake", "env", "leanchecker"] + list(info["built"]), 1800, cwd=LEAN)
+            info["leanchecker"] = rc == 0
+            if rc != 0:
+                ctx.broken_obligation("leanchecker:" + ",".join(info["built"]), out[-1500:])
     return info
 
 
@@ -206,7 +213,8 @@ def write_evidence(ctx, prop, build_info, audit_info, n_violations, wall):
     cov = {
         "obligations": n_obl + n_broken if (n_obl + n_broken) > 0 else 1,
         "discharged": n_obl if not ctx.broken else max(0, n_obl - len(audit_info.get("bad_axioms", {}))),
-        "checker_cmd": "cd lean && lake build %s && lake env lean <audit: #audit_ns %s>" % (" ".join(prop.LEAN_MODULES), " ".join(prop.NAMESPACES)),
+        "checker_cmd": "cd lean && lake build %s && lake env lean <audit: #audit_ns %s>%s" % (" ".join(prop.LEAN_MODULES), " ".join(prop.NAMESPACES),
+                                                                                                  "" if ctx.quick() else " && lake env leanchecker " + " ".join(prop.LEAN_MODULES)),
         "trusted_base": [
             "Lean 4.33.0 kernel",
             "axioms used: " + ", ".join(sorted({a for axs in theorems.values() for a in axs}) or ["none"]),
